@@ -57,6 +57,9 @@ WHAT = {
 
 def exhaustive(ctx, cfgs, label="", workers="auto", timeout=1500):
     out = []
+    if os.environ.get("VERIF_UDP_SKIP_MC"):      # development aid for mutation runs (the model does not depend on the repo)
+        ctx.cov["skipped"].append("exhaustive TLC runs skipped by VERIF_UDP_SKIP_MC: %s" % cfgs)
+        return out
     for cfg in cfgs:
         r = vlib.tlc(ctx, "MC_UdpNat", cfg, workers=workers, timeout=timeout, deadlock=False)
         ctx.add_tlc(r, "%s %s" % (label, cfg))
@@ -199,7 +202,7 @@ def summary_violations(ctx, sums, behs, desc, want):
         beh = behs[i] if behs else None
         if s.get("flood"):
             ctx.violation({"module": "UdpNat", "kind": "metrics-flood"},
-                          "the proxy made more than 100000 metrics calls in one behaviour (%d more were dropped): packets are reported that "
+                          "the proxy made more than 4000 metrics calls in one behaviour (%d more were dropped): packets are reported that "
                           "nobody sent - an association goroutine is spinning (%s, behaviour %d)" % (s["flood"], desc, i + 1),
                           {"behaviour": beh, "summary": s})
             return
